@@ -11,7 +11,7 @@ import (
 	"tglib"
 )
 
-func init() { register("C10", "exploration", runC10) }
+func init() { register("C10", "model_checking", runC10) }
 
 // downlink plain messages (hand-encoded per TS 24.501 clause 8, lengths with different residues mod 4 and 16)
 func c10messages() [][]byte {
@@ -115,6 +115,9 @@ func c10history(r *report.Report, l *report.Local, msgs [][]byte, ops []c10op, a
 		if short {
 			desc += fmt.Sprintf(" recv(msg%d,h=%d,+%d)", op.msg, op.h, op.step)
 		}
+		// model state: (algorithm pair, COUNT of the AMF's last message, first-message flag); transition: one downlink message
+		l.State(report.H(fmt.Sprint("c10", alg, amfCount, first)))
+		l.Transition(report.H(fmt.Sprint("c10", alg, amfCount, first, oi)))
 		plain := msgs[op.msg]
 		wire := plain
 		use := amfCount
@@ -169,6 +172,8 @@ func c10history(r *report.Report, l *report.Local, msgs [][]byte, ops []c10op, a
 			}
 		}
 	}
+	l.State(report.H(fmt.Sprint("c10", alg, amfCount, first)))
+	l.Trace()
 	if short {
 		l.Case(desc+fmt.Sprint(viaGetNasPdu), len(seq) >= 2, fmt.Sprint(amfCount))
 	} else {
